@@ -35,6 +35,13 @@ CLAIMS = {
          "'integer' implies a grammatical number. Not decided: agreement of the integer/float split with the scanner's classifier (needs the "
          "value-preservation half of C13).",
          "5 C20", "weakest-precondition VCs over go/ssa + SMT; finite tables imported from the package initialiser; lemmas over contracts"),
+ "C18": ("doCompile/Compile/Check are proved to accept a regex schema exactly when its text starts with '/', contains a later '/' that is not "
+         "escaped (escape parity tracked by a recursive spec function, any length) and the text between them compiles (regexp.Compile is external: "
+         "uninterpreted validRE); Pattern(), Len() and GetAST().Value are proved to carry exactly that slice (pattern, len+2, \"/\"+pattern+\"/\"); "
+         "every rejection is a kit.JSchemaError with an index inside the text (index 0 for empty text); no panic on any input including empty "
+         "and one-byte texts; the first use goes through a sequential model of sync.Once. Not decided: Example() matches the pattern (reggen and "
+         "regexp are external), the OpenAPI pattern text, use as a user type.",
+         "5 C18", "weakest-precondition VCs over go/ssa + SMT; escape-parity spec function with loop invariant"),
 }
 
 NOT_APPLICABLE = {
